@@ -17,6 +17,12 @@ pub struct ExRegex(regex::Regex);
 
 pub assume_specification[ <log::LevelFilter as Clone>::clone ](l: &log::LevelFilter) -> (r: log::LevelFilter)
     ensures r == *l;
+/// R22m SHIM for `module_name.as_ref()` (M: AsRef<str>) followed by `.to_owned()`
+pub uninterp spec fn as_ref_text<S>(s: &S) -> Seq<char>;
+#[verifier::external_body]
+pub fn vas_ref_owned<S: AsRef<str>>(s: &S) -> (r: String)
+    ensures r@ == as_ref_text::<S>(s)
+{ s.as_ref().to_owned() }
 pub mod key_axioms {
     use super::*;
     use vstd::std_specs::hash::*;
@@ -93,6 +99,16 @@ pub mod log_specification {
     //@   ret r
     //@   props C02
     //@   ens[LogSpecBuilder::default.post] r.map() == old(self).map().insert(None, lf)
+    //@ fn src/log_specification.rs impl LogSpecBuilder / fn module
+    //@   ret r
+    //@   props C02
+    //@   rule R22m *
+    //@   ens[LogSpecBuilder::module.post] exists|name: String| name@ == as_ref_text::<M>(&module_name) && r.map() == old(self).map().insert(Some(name), lf)
+    //@ fn src/log_specification.rs impl LogSpecBuilder / fn remove
+    //@   ret r
+    //@   props C02
+    //@   rule R22m *
+    //@   ens[LogSpecBuilder::remove.post] exists|name: String| name@ == as_ref_text::<M>(&module_name) && r.map() == old(self).map().remove(Some(name))
     //@ fn src/log_specification.rs impl LogSpecBuilder / fn insert_modules_from
     //@   ret r
     //@   props C02
